@@ -177,7 +177,14 @@ fn f(name: &str) -> Selection {
 /// World with every ID type expression in `exprs` as a field `idK`, next to String / Int / custom
 /// scalar neighbours of the same shape, selected in plain, fragment-flattened and variant positions.
 fn id_world(exprs: &[Vec<bool>]) -> World {
-    let mut holder = vec![fd("s0", TypeExpr::plain(Named::String, false)), fd("n0", TypeExpr::plain(Named::Int, false)), fd("c0", TypeExpr::plain(Named::Custom(0), false))];
+    // `c1` / `c2`: a *custom* scalar that happens to be called `Id` - not the built-in ID, no coercion
+    let mut holder = vec![
+        fd("s0", TypeExpr::plain(Named::String, false)),
+        fd("n0", TypeExpr::plain(Named::Int, false)),
+        fd("c0", TypeExpr::plain(Named::Custom(0), false)),
+        fd("c1", TypeExpr::plain(Named::Custom(1), true)),
+        fd("c2", TypeExpr::new(Named::Custom(1), vec![false, true])),
+    ];
     for (k, nn) in exprs.iter().enumerate() {
         holder.push(fd(&format!("id{}", k), TypeExpr::new(Named::ID, nn.clone())));
         holder.push(fd(&format!("st{}", k), TypeExpr::new(Named::String, nn.clone())));
@@ -190,7 +197,7 @@ fn id_world(exprs: &[Vec<bool>]) -> World {
         interfaces: vec![InterfaceT { name: "Face".into(), fields: holder.clone(), description: None }],
         unions: vec![],
         enums: vec![],
-        scalars: vec![ScalarT { name: "Stamp".into(), repr: ScalarRepr::StringAlias }],
+        scalars: vec![ScalarT { name: "Stamp".into(), repr: ScalarRepr::StringAlias }, ScalarT { name: "Id".into(), repr: ScalarRepr::StringAlias }],
         inputs: vec![],
         query: 1,
         mutation: None,
@@ -223,6 +230,8 @@ fn conforming(exprs: &[Vec<bool>]) -> serde_json::Map<String, Value> {
     m.insert("s0".into(), json!("s"));
     m.insert("n0".into(), json!(1));
     m.insert("c0".into(), json!("c"));
+    m.insert("c1".into(), json!("custom-id"));
+    m.insert("c2".into(), json!(["custom-id"]));
     fn val(nn: &[bool], leaf: Value) -> Value {
         if nn.len() == 1 {
             leaf
@@ -247,7 +256,9 @@ fn set_leaf(nn: &[bool], leaf: Value) -> Value {
 
 fn id_item(exprs: &[Vec<bool>], label: &str, seed: u64) -> Item {
     let world = id_world(exprs);
-    let mut base = base_from_world(world, Opts::default(), if seed % 2 == 0 { Delivery::Library } else { Delivery::Derive });
+    // a quarter of the programs also run with skip_serializing_none (it adds serde attributes to the same fields)
+    let skip = seed % 4 >= 2;
+    let mut base = base_from_world(world, Opts { skip_none: skip, ..Opts::default() }, if seed % 2 == 0 { Delivery::Library } else { Delivery::Derive });
     if exprs.iter().any(|e| e.len() > 1) {
         base.features.set.insert("id_in_list");
     }
@@ -308,7 +319,12 @@ fn id_item(exprs: &[Vec<bool>], label: &str, seed: u64) -> Item {
                         inner.insert(format!("id{}", k), Value::Null);
                     }
                     let mut want = conforming(exprs);
-                    want.insert(format!("id{}", k), Value::Null);
+                    // the observation is the re-serialised struct: under skip_serializing_none a None member is omitted
+                    if skip {
+                        want.remove(&format!("id{}", k));
+                    } else {
+                        want.insert(format!("id{}", k), Value::Null);
+                    }
                     let want = wrap(want);
                     base.case.vectors.push(Vector { unit: 0, kind: "response".into(), name: String::new(), input: wrap(inner) });
                     expects.push(Expectation::OkMember { key: pos.into(), value: want[pos].clone() });
@@ -330,6 +346,14 @@ fn id_item(exprs: &[Vec<bool>], label: &str, seed: u64) -> Item {
         expects.push(Expectation::MustErr);
         nt.push(None);
         labels.push(format!("{} c0 integer at a string-typed custom scalar leaf", pos));
+        for (k, v) in [("c1", json!(5)), ("c2", json!([5]))] {
+            let mut inner = conforming(exprs);
+            inner.insert(k.into(), v);
+            base.case.vectors.push(Vector { unit: 0, kind: "response".into(), name: String::new(), input: wrap(inner) });
+            expects.push(Expectation::MustErr);
+            nt.push(Some(fnv_str(&[label, pos, k, "custom scalar named Id"])));
+            labels.push(format!("{} {} integer at a custom scalar that is merely named `Id`", pos, k));
+        }
     }
     Item { base, expects, tape: label.as_bytes().to_vec(), nt, labels, depends: vec![] }
 }
